@@ -1,2 +1,142 @@
-def selftest():
-    pass
+"""Self-tests of the machinery, run by `check.py --setup`:
+ (i)   binding: corrupt recorded fields of real traces / drop a hook's observation and require that the TLA+ judge
+       rejects exactly the corrupted events (and accepts the untouched trace);
+ (ii)  vacuity: every event kind of the probe traces is judged by at least 3 named clauses;
+ (iii) spec mutation: a mutated reference operator must make TLC report the model-checked property violated;
+ (iv)  schema extraction: an edited tag in a copy of each schema source must show up as a table difference.
+A failure here is a tool error (the machinery is broken), never a VIOLATION."""
+import copy, json, os, re, shutil, subprocess, sys
+
+ROOT = os.path.dirname(os.path.abspath(__file__))
+
+
+def _bump(num):
+    return [num[0] + num[1], num[1]]
+
+
+def corruptions():
+    """(group, n, list of (predicate, mutate, description))"""
+    def ok(e):
+        return e["out"].get("tag") == "ok"
+    return [
+        ("eval_fn", 40, [
+            (lambda e: ok(e), lambda e: e["out"].__setitem__("value", _bump(e["out"]["value"])), "value + 1"),
+            (lambda e: ok(e) and e["out"]["ids"], lambda e: e["out"]["ids"].pop(), "one used id dropped"),
+            (lambda e: e["out"]["tag"] == "err", lambda e: e.__setitem__("out", {"tag": "ok", "value": [0, 1], "ids": []}), "err turned into ok"),
+        ]),
+        ("arith", 40, [
+            (lambda e: ok(e) and e["out"]["f"]["kind"] == "linear", lambda e: e["out"]["f"].__setitem__("constant", _bump(e["out"]["f"]["constant"])), "constant + 1"),
+        ]),
+        ("evaluate", 60, [
+            (lambda e: ok(e), lambda e: e["out"]["sol"].__setitem__("objective", _bump(e["out"]["sol"]["objective"])), "objective + 1"),
+            (lambda e: ok(e), lambda e: e["out"]["sol"].__setitem__("feasible", not e["out"]["sol"]["feasible"]), "feasible flipped"),
+            (lambda e: ok(e) and e["out"]["sol"]["evaluated"], lambda e: e["out"]["sol"]["evaluated"].pop(), "an evaluated constraint dropped"),
+            (lambda e: ok(e) and e["out"]["sol"]["state"][0], lambda e: e["out"]["sol"]["state"][0][0].__setitem__(1, _bump(e["out"]["sol"]["state"][0][0][1])), "a reported value + 1"),
+        ]),
+        ("relax_restore", 30, [
+            (lambda e: e["ev"] == "relax" and ok(e), lambda e: e["out"]["post"]["removed"][-1].__setitem__("reason", "other"), "recorded reason changed"),
+            (lambda e: e["ev"] == "restore" and ok(e) and e["out"]["post"]["constraints"], lambda e: e["out"]["post"]["constraints"].pop(), "a constraint lost on restore"),
+        ]),
+        ("penalty", 30, [
+            (lambda e: ok(e) and e["out"]["pinst"]["removed"], lambda e: e["out"]["pinst"]["removed"].pop(), "a removed constraint lost"),
+            (lambda e: ok(e) and e["out"]["pinst"]["parameters"], lambda e: e["out"]["pinst"]["parameters"][0].__setitem__("id", e["out"]["pinst"]["vars"][0]["id"]), "parameter id collides with a variable"),
+        ]),
+        ("log_encode", 40, [
+            (lambda e: ok(e) and e["out"]["enc"]["terms"], lambda e: e["out"]["enc"]["terms"][-1].__setitem__("c", _bump(e["out"]["enc"]["terms"][-1]["c"])), "last coefficient + 1 (overshoot)"),
+        ]),
+        ("mps_roundtrip", 30, [
+            (lambda e: ok(e) and e["out"]["inst"]["vars"], lambda e: e["out"]["inst"]["vars"][0].__setitem__("bound", [{"lo": [0, 1], "hi": [1, 0]}]), "a bound replaced by the MPS default"),
+        ]),
+    ]
+
+
+def selftest(check):
+    wd = os.path.join(check.WORK, "selftest")
+    shutil.rmtree(wd, ignore_errors=True)
+    os.makedirs(wd)
+    check.write_schema()
+    # ---- (i) + (ii)
+    total, found = 0, 0
+    for group, n, cs in corruptions():
+        inp = os.path.join(wd, f"{group}.in.ndjson")
+        obs = os.path.join(wd, f"{group}.obs.ndjson")
+        check.harness_gen(group, 7, n, inp)
+        check.harness_replay(inp, obs, jobs=2)
+        evs = [json.loads(l) for l in open(obs)]
+        nev, bad, _, _ = check.judge(obs, wd)
+        if bad:
+            raise check.ToolError(f"selftest: untouched {group} trace rejected: {bad[0][1]} case {bad[0][0].get('case')}")
+        expect = {}
+        for pred, mut, desc in cs:
+            idx = next((i for i, e in enumerate(evs) if i not in expect and pred(e)), None)
+            if idx is None:
+                raise check.ToolError(f"selftest: no event for corruption '{desc}' in group {group}")
+            mut(evs[idx])
+            expect[idx] = desc
+        obs2 = os.path.join(wd, f"{group}.corrupt.ndjson")
+        with open(obs2, "w") as f:
+            for e in evs:
+                f.write(json.dumps(e) + "\n")
+        nev, bad, _, _ = check.judge(obs2, wd)
+        badcases = {json.dumps(b[0], sort_keys=True) for b in bad}
+        want = {json.dumps(evs[i], sort_keys=True) for i in expect}
+        if badcases != want:
+            raise check.ToolError(f"selftest: group {group}: judge rejected {len(badcases)} events, expected exactly the {len(want)} corrupted ones")
+        total += len(want)
+        found += len(badcases)
+    print(f"selftest (i): {found}/{total} corrupted events rejected, all untouched events accepted")
+    # ---- (iii) spec mutation
+    mut = os.path.join(wd, "spec_mut")
+    shutil.copytree(check.SPEC, mut)
+    p = os.path.join(mut, "Inst.tla")
+    s = open(p).read()
+    s2 = s.replace("MapFns(I, F(_)) == [I EXCEPT !.obj = F(@), !.cons = [c \\in DOMAIN @ |-> [@[c] EXCEPT !.f = F(@)]],",
+                   "MapFns(I, F(_)) == [I EXCEPT !.obj = F(@), !.cons = [c \\in DOMAIN @ |-> [@[c] EXCEPT !.f = IF c \\in I.active THEN F(@) ELSE @]],")
+    if s2 == s:
+        raise check.ToolError("selftest: mutation site not found in Inst.tla")
+    open(p, "w").write(s2)
+    env = dict(os.environ)
+    env["JAVA_TOOL_OPTIONS"] = f"-Xss1g -DTLA-Library={mut}:{mut}/gen:{mut}/mc"
+    r = subprocess.run(["tlc", "-workers", "8", "-metadir", os.path.join(wd, "md_mut"), "-cleanup", "-noGenerateSpecTE",
+                        "-config", "MC_InstSM.cfg", "MC_InstSM.tla"], cwd=os.path.join(mut, "mc"), env=env,
+                       stdout=subprocess.PIPE, stderr=subprocess.STDOUT, text=True, timeout=900)
+    if "Model checking completed. No error has been found" in r.stdout or "C03" not in r.stdout:
+        raise check.ToolError("selftest: the mutated specification (partial evaluation skipping removed constraints) was not caught by MC_InstSM")
+    print("selftest (iii): mutated PartialEvaluate (removed constraints skipped) violates C03 in MC_InstSM as required")
+    shutil.rmtree(mut, ignore_errors=True)
+    # ---- (iv) schema extraction sensitivity
+    sys.path.insert(0, os.path.join(ROOT, "tools"))
+    import schema_tables
+    fake = os.path.join(wd, "repo")
+    for sub in ("proto/ommx/v1", "rust/ommx/src", "python/ommx/ommx/v1"):
+        os.makedirs(os.path.join(fake, sub))
+    for f in os.listdir("/repo/proto/ommx/v1"):
+        shutil.copy(os.path.join("/repo/proto/ommx/v1", f), os.path.join(fake, "proto/ommx/v1", f))
+    shutil.copy("/repo/rust/ommx/src/ommx.v1.rs", os.path.join(fake, "rust/ommx/src/ommx.v1.rs"))
+    for f in os.listdir("/repo/python/ommx/ommx/v1"):
+        if f.endswith("_pb2.py"):
+            shutil.copy(os.path.join("/repo/python/ommx/ommx/v1", f), os.path.join(fake, "python/ommx/ommx/v1", f))
+    def ndiff():
+        evs, _ = schema_tables.events(fake)
+        return sum(1 for e in evs if not (e["in"]["P"] == e["in"]["R"] == e["in"]["Y"]))
+    if ndiff() != 0:
+        raise check.ToolError("selftest: schema tables of the working tree differ (see `python3 tools/schema_tables.py /repo`)")
+    rs = os.path.join(fake, "rust/ommx/src/ommx.v1.rs")
+    s = open(rs).read()
+    open(rs, "w").write(s.replace('#[prost(uint64, tag = "1")]\n    pub constraint_id: u64,', '#[prost(uint64, tag = "3")]\n    pub constraint_id: u64,', 1))
+    d1 = ndiff()
+    open(rs, "w").write(s)
+    pr = os.path.join(fake, "proto/ommx/v1/linear.proto")
+    s = open(pr).read()
+    open(pr, "w").write(s.replace("double constant = 2;", "double constant = 3;"))
+    d2 = ndiff()
+    open(pr, "w").write(s)
+    py = os.path.join(fake, "python/ommx/ommx/v1/linear_pb2.py")
+    s = open(py).read()
+    s2 = s.replace("\\x18\\x02 \\x01(\\x01R\\x08\\x63onstant", "\\x18\\x03 \\x01(\\x01R\\x08\\x63onstant")
+    open(py, "w").write(s2)
+    d3 = ndiff() if s2 != s else -1
+    if d1 < 1 or d2 < 1 or d3 < 1:
+        raise check.ToolError(f"selftest: edited tags not detected by the schema tables (rust {d1}, proto {d2}, python {d3})")
+    print(f"selftest (iv): edited tag detected in each schema source (rust {d1}, proto {d2}, python {d3} differing tables)")
+    shutil.rmtree(wd, ignore_errors=True)
